@@ -135,6 +135,26 @@ class Inference:
             defined[ti] = np.ones(t.nbytes(), bool)
             produced.add(ti)
 
+        # variable (state) tensors live across inferences: the runtime zeroes them once, Ethos-U operators that take them as
+        # operands update them in place, nothing else may ever write to them
+        variables = [t.idx for t in m.tensors if getattr(t, "is_variable", False) and offs[t.idx] >= 0 and t.data is None]
+        for ti in variables:
+            t = m.tensors[ti]
+            arena[offs[ti]:offs[ti] + t.nbytes()] = owner(ti)
+            defined[ti] = np.ones(t.nbytes(), bool)
+            produced.add(ti)
+
+        def check_variables(op_idx, opname):
+            for ti in variables:
+                t = m.tensors[ti]
+                seg = arena[offs[ti]:offs[ti] + t.nbytes()]
+                bad = seg != owner(ti)
+                if bad.any():
+                    i = int(np.argmax(bad))
+                    self.v(prop="C12", oracle="live_tensor_clobbered", op=op_idx, opname=opname, tensor=ti, tname=t.name, offset=offs[ti] + i,
+                           found_tag=int(seg[i]), n_bytes=int(bad.sum()), who="variable_state")
+                    seg[:] = owner(ti)  # reported once
+
         def classify(ti, seg):
             """-> (clobbered, undefined) masks: a byte the producer wrote and that no longer carries the tensor's tag was overwritten
             while live (plan defect, C12); a byte no producer ever wrote is an undefined byte (C03), reported when a CPU operator or
@@ -167,6 +187,7 @@ class Inference:
                        found_tag=int(seg[i]), n_bytes=int(undef.sum()), who=who)
 
         for op in m.ops:
+            check_variables(op.idx, op.name)
             if op.idx in plan.eops:
                 ent = plan.programs[op.idx]
                 e = ent["e"]
@@ -266,6 +287,9 @@ class Inference:
                     partial[ti] = seg.copy()
                 # scratch bytes written by this operator that belong to none of its outputs are dead afterwards
                 arena[npu_written] = DEAD
+                for ti in variables:
+                    if ti in e["fm_inputs"]:
+                        arena[offs[ti]:offs[ti] + m.tensors[ti].nbytes()] = owner(ti)  # state updated in place by its own operator
                 for ti in e["outputs"]:
                     o = offs[ti]
                     if o >= 0:
@@ -294,6 +318,7 @@ class Inference:
                         else:
                             arena[o:o + t.nbytes()] = owner(ti)
                             defined[ti] = np.ones(t.nbytes(), bool)
+        check_variables(-1, "<end of inference>")
         for ti in m.outputs:
             t = m.tensors[ti]
             if t.data is not None:
@@ -439,6 +464,9 @@ class ValueRun:
             o = offs[ti]
             return arena[o:o + t.nbytes()].view(t.dtype).reshape(t.shape).copy()
 
+        for t in m.tensors:
+            if getattr(t, "is_variable", False) and t.data is None and offs[t.idx] >= 0:
+                arena[offs[t.idx]:offs[t.idx] + t.nbytes()] = 0  # state tensors are zeroed by the runtime
         online = {}
         for ti, v in zip(m.inputs, inputs):
             if offs[ti] < 0:
